@@ -132,5 +132,106 @@ void h_plus(void) {
     return spec
 
 
+def _replay_scale(vals, failed):
+    import re
+    from lib import native
+    def num(k):
+        c = [v for kk, v in vals.items() if re.match(re.escape(k).replace(r"\]", r"\w*\]") + "$", kk)]
+        return int(re.sub(r"[^\d-]", "", c[0]) or 0) if c else 0
+    n = num("vp_in_na")
+    vec = ",".join("%d:%d" % (num("vp_in_ai[%d]" % i), num("vp_in_av[%d]" % i)) for i in range(n)) or "-"
+    return native.replay_run("e3_fp", ["--replay-scale", num("vp_in_p"), vec, num("vp_in_a")], dict(libs=()))
+
+
+def _scale_unit(maxlen, bounded=False):
+    """K22c: SpVecFP<P>::operator*(const P &a) - the scaling loop with its two normalisation loops under loop contracts.  Ghost SRC[j] =
+    position of the operand entry the j-th result entry was computed from.  Contract (canonical operand, |a| < 2^15, 2 <= p < 2^15): the
+    result lists, in order, exactly the operand entries whose product with a does not vanish mod p, each with the product reduced to 1..p-1."""
+    import re
+    log = []
+    rel = "include/parmcb/spvecfp.hpp"
+    text = X.src(rel)
+    body = X.body_after(text, r"SpVecFP<P> operator\*\(const P &a\) const\s*", "SpVecFP::operator*(scalar)")
+    body = X.drop_local_const(body, log)
+    body = X.rewrite(body, [
+        (r"SpVecFP<P> res\(p\);", "", 1, "container-api", "result vector -> arrays RI / RV + length nr (0 on entry)"),
+        (r"auto it = entries\.begin\(\), it_e = entries\.end\(\);", "size_t it = 0, it_e = na;", 1, "container-api", "iterators = positions"),
+        (r"entry_type entry = \*it;", "", 1, "container-api", "the tuple is read through AI / AV"),
+        (r"std::size_t index = boost::get<0>\(entry\);", "size_t index = AI[it];", 1, "container-api", ""),
+        (r"P value = boost::get<1>\(entry\);", "P value = AV[it];", 1, "container-api", ""),
+        (r"res\.entries\.push_back\(boost::make_tuple\((\w+), (\w+)\)\);", r"RI[nr] = \1; RV[nr] = \2; SRC[nr] = it; nr++;", 1, "container-api", "push_back of an (index, value) pair; ghost: the operand position it came from"),
+        (r"return res;", "return;", 1, "type-binding", ""),
+    ], log)
+    facts = ("it <= na && it_e == na && nr <= it"
+             " && ALLR(qr, qr < nr ==> (SRC[qr] < it && RI[qr] == AI[SRC[qr]] && RV[qr] == PRODN(SRC[qr]) && RV[qr] >= 1 && RV[qr] < p"
+             " && (qr + 1 < nr ==> (SRC[qr] < SRC[qr + 1] && RI[qr] < RI[qr + 1]))))"
+             " && ALLA(qa, qa < it ==> (PRODN(qa) == 0 || INSRC(qa)))")
+    inv_main = "__CPROVER_assigns(it, nr, __CPROVER_object_whole(RI), __CPROVER_object_whole(RV), __CPROVER_object_whole(SRC))\n__CPROVER_loop_invariant(%s)\n__CPROVER_decreases(na - it)" % facts
+    inv_neg = "__CPROVER_assigns(v)\n__CPROVER_loop_invariant(vp_v0 > -p && vp_v0 < p && v > -p && v < p && (v == vp_v0 || v == vp_v0 + p))\n__CPROVER_decreases(p - v)"
+    inv_pos = "__CPROVER_assigns(v)\n__CPROVER_loop_invariant(vp_v0 > -p && vp_v0 < p && v >= 0 && v < p && (v == vp_v0 || v == vp_v0 + p))\n__CPROVER_decreases(v)"
+    ls = X.loops(body)
+    heads = [re.sub(r"\s+", " ", body[x:y + 1]) for x, y in ls]
+    if len(ls) == 3:
+        contracts = {0: inv_main, 1: inv_neg, 2: inv_pos}
+    elif len(ls) == 1:
+        contracts = {0: inv_main}
+    else:
+        raise Undecided("extraction out of date: SpVecFP::operator*(scalar) has %d loops with headers %s" % (len(ls), "; ".join(h[:50] for h in heads)))
+    body = re.sub(r"(P v = [^;]*;)", r"\1 const P vp_v0 = v;", body, count=1)
+    if not bounded:
+        body = X.splice_loop_contracts(body, contracts, log)
+    insrc = "(" + " || ".join("(%d < nr && SRC[%d] == (k))" % (i, i) for i in range(maxlen)) + ")"
+    fn = r"""
+#include <stddef.h>
+#include <stdbool.h>
+typedef long P;
+#define MAXLEN %(MAXLEN)d
+size_t AI[MAXLEN], RI[MAXLEN], SRC[MAXLEN], na, nr; P AV[MAXLEN], RV[MAXLEN]; P p, a;
+#define INSRC(k) %(INSRC)s
+/* the product of operand entry i with the scalar, reduced to 0..p-1 */
+#define NORM(x) ((x) < 0 ? (x) + p : (x))
+#define PRODN(i) NORM((AV[i] * a) %% p)
+#define ALLR(r, body) __CPROVER_forall { size_t r; (r < MAXLEN) ==> (body) }
+#define ALLA(r, body) __CPROVER_forall { size_t r; (r < MAXLEN) ==> (body) }
+void scale(void)
+__CPROVER_requires(p >= 2 && p < 32768 && a > -32768 && a < 32768 && na <= MAXLEN && nr == 0)
+/* operand canonical: indices strictly increasing, values in 1..p-1 */
+__CPROVER_requires(ALLA(ra, ra < na ==> (AV[ra] >= 1 && AV[ra] < p && (ra + 1 < na ==> AI[ra] < AI[ra + 1]))))
+__CPROVER_assigns(nr, __CPROVER_object_whole(RI), __CPROVER_object_whole(RV), __CPROVER_object_whole(SRC))
+/* every result entry is an operand entry (in order) with its product reduced to 1..p-1; the result is canonical */
+__CPROVER_ensures(nr <= na && ALLR(pr, pr < nr ==> (SRC[pr] < na && RI[pr] == AI[SRC[pr]] && RV[pr] == PRODN(SRC[pr]) && RV[pr] >= 1 && RV[pr] < p
+                  && (pr + 1 < nr ==> (SRC[pr] < SRC[pr + 1] && RI[pr] < RI[pr + 1])))))
+/* every operand entry whose product does not vanish mod p is in the result */
+__CPROVER_ensures(ALLA(pa, pa < na ==> (PRODN(pa) == 0 || INSRC(pa))))
+{%(BODY)s}
+size_t vp_in_na, vp_in_ai[MAXLEN]; P vp_in_p, vp_in_a, vp_in_av[MAXLEN];
+void h_scale(void) {
+  vp_in_na = na; vp_in_p = p; vp_in_a = a;
+  scale();
+  __CPROVER_assert(0, "VP_REACH end of harness");
+}
+""" % dict(MAXLEN=maxlen, INSRC=insrc, BODY=body)
+    text = _fresh(fn)
+    spec = dict(unit="K22c_spvecfp_scale", site="K22c_spvecfp_scale", lang="c", source=rel + " (SpVecFP::operator*(const P&))", entry="h_scale", rewrites=log, timeout=2400,
+                dropped=["class wrapper; template header"], replay=_replay_scale,
+                assumptions=["std::vector of boost tuples bound to index / value arrays; P = long; |a| and p below 2^15 (no overflow of value * a); the argument does not use primality"],
+                trusted=["cbmc 6.11 + DFCC, SAT back end (bounded quantifier instantiation)"])
+    if bounded:
+        cap = "".join("  vp_in_ai[%d] = AI[%d]; vp_in_av[%d] = AV[%d];\n" % ((i,) * 4) for i in range(maxlen))
+        text = X.plain_harness(text, "void scale(void)", "void h_scale(void)", "scale()",
+                               pre_call="  __CPROVER_assume(p <= 7 && a >= -15 && a <= 15 && ALLA(ba, AI[ba] < 8));\n  vp_in_na = na; vp_in_p = p; vp_in_a = a;\n" + cap)
+        spec.update(unit="K22c_spvecfp_scale_bounded", text=text, mode="bounded", flags=["--nondet-static", "--object-bits", "12"], unwind=maxlen + 2,
+                    bound="operand with <= %d entries, indices < 8, p <= 7, |a| <= 15, loops unwound; the contract as assume / assert" % maxlen,
+                    functions={"SpVecFP::operator*(scalar)": "bounded(len<=%d, p<=7)" % maxlen})
+    else:
+        spec.update(text=text, enforce="scale", split=8, flags=["--object-bits", "12"], unwind=max(maxlen + 4, 16), loop_contracts=True, mode="proof",
+                    fallback=lambda: _scale_unit(3, True),
+                    bound="proved(operand with <= %d entries, |a| < 2^15, 2 <= p < 2^15): all three loops closed by loop contracts" % maxlen,
+                    functions={"SpVecFP::operator*(scalar)": "proved(len<=%d)" % maxlen})
+    return spec
+
+
 def units(tier):
+    # K22c (_scale_unit) is NOT registered: with a symbolic 15-bit scalar and modulus the obligations that relate the code's
+    # (value * a) % p to the specification's product do not finish on the SAT back end (2400 s cap, <= 3 entries) - see DESIGN 10.16
     return [X.guarded("K22b_spvecfp_plus", _unit, 3 if tier == "thorough" else 2)]
